@@ -13,8 +13,8 @@ use std::collections::{BTreeMap, HashSet, VecDeque};
 use std::panic::{AssertUnwindSafe, catch_unwind};
 use std::path::Path;
 
-pub const KINDS: [&str; 17] = [
-    "fn-added", "fn-removed", "sig-changed", "struct-field-added", "struct-field-retyped", "enum-variant-added", "enum-payload-changed",
+pub const KINDS: [&str; 18] = [
+    "fn-added", "fn-removed", "sig-changed", "struct-field-added", "struct-field-added-before", "struct-field-retyped", "enum-variant-added", "enum-payload-changed",
     "trait-method-added", "impl-added", "impl-removed", "type-renamed", "generic-param-added", "bound-added", "bound-removed", "bound-changed",
     // two inherent impls for two instances of one generic struct, each with a bounded method of one name
     "method-bound-changed-first-impl", "method-bound-changed-second-impl",
@@ -34,7 +34,7 @@ fn graph(name: &str) -> Vec<(&'static str, Vec<&'static str>)> {
 }
 
 /// variant: 0 = v0, 1 = body-only edit, 2 = interface-changing edit of `kind`
-fn lib_source(l: &str, deps: &[&str], variant: u8, kind: &str) -> String {
+fn lib_source(l: &str, deps: &[&str], variant: u8, kind: &str, indirect: bool) -> String {
     let k = if variant == 1 { 20 } else { 10 };
     let iface = variant == 2;
     let mut s = format!("package {}\n", l);
@@ -45,6 +45,8 @@ fn lib_source(l: &str, deps: &[&str], variant: u8, kind: &str) -> String {
     let sname = if iface && kind == "type-renamed" { format!("S{}x", l) } else { format!("S{}", l) };
     let fields = if iface && kind == "struct-field-added" {
         "a: int32, b: int32"
+    } else if iface && kind == "struct-field-added-before" {
+        "b: int32, a: int32"
     } else if iface && kind == "struct-field-retyped" {
         "a: bool"
     } else {
@@ -108,7 +110,16 @@ fn lib_source(l: &str, deps: &[&str], variant: u8, kind: &str) -> String {
     if !(iface && matches!(kind, "enum-payload-changed" | "struct-field-retyped" | "type-renamed" | "generic-param-added")) {
         s.push_str(&format!("fn mk{l}(k: int32) -> E{l} {{ if k > 0 {{ {vy}(k) }} else {{ {vx} }} }}\n", l = l, vy = vy, vx = vx));
         s.push_str(&format!("fn un{l}(e: E{l}) -> int32 {{ match e {{ {vx} => 0, {vy}(w) => w, _ => 2 }} }}\n", l = l, vy = vy, vx = vx));
-        s.push_str(&format!("fn shapes{l}(k: int32) -> int32 {{ let t = (k, {sn} {{ a: k{extra} }}); let c = |q: int32| q + t.0; let w = vec_push(vec_new(), t.1.a); c(un{l}(mk{l}(k))) + vec_get(w, 0) }}\n", l = l, sn = sname, extra = if iface && kind == "struct-field-added" { ", b: 0" } else { "" }));
+        s.push_str(&format!("fn shapes{l}(k: int32) -> int32 {{ let t = (k, {sn} {{ a: k{extra} }}); let c = |q: int32| q + t.0; let w = vec_push(vec_new(), t.1.a); c(un{l}(mk{l}(k))) + vec_get(w, 0) }}\n", l = l, sn = sname, extra = if iface && matches!(kind, "struct-field-added" | "struct-field-added-before") { ", b: 0" } else { "" }));
+        // a value of the struct for other packages to pass on
+        s.push_str(&format!("fn new{l}() -> {sn} {{ {sn} {{ a: 7{extra} }} }}\n", l = l, sn = sname, extra = if iface && matches!(kind, "struct-field-added" | "struct-field-added-before") { ", b: 0" } else { "" }));
+    } else if iface && kind == "struct-field-retyped" {
+        s.push_str(&format!("fn new{l}() -> {sn} {{ {sn} {{ a: true }} }}\n", l = l, sn = sname));
+    }
+    if indirect {
+        for d in deps {
+            s.push_str(&format!("fn get{d}() -> {d}::S{d} {{ {d}::new{d}() }}\n", d = d));
+        }
     }
     let mut body = format!("x + {}", k);
     for d in deps {
@@ -118,7 +129,9 @@ fn lib_source(l: &str, deps: &[&str], variant: u8, kind: &str) -> String {
     s
 }
 
-fn main_source(deps: &[&str]) -> String {
+/// `indirect`: (package imported by Main, package it imports that Main does not) - Main reads a field of a
+/// struct of the second that a function of the first hands on
+fn main_source(deps: &[&str], indirect: &[(String, String)]) -> String {
     let mut s = String::from("package Main\n");
     for d in deps {
         s.push_str(&format!("import {}\n", d));
@@ -126,6 +139,9 @@ fn main_source(deps: &[&str]) -> String {
     let mut sum = String::from("0");
     for d in deps {
         sum.push_str(&format!(" + {}::f{}(1)", d, d));
+    }
+    for (via, x) in indirect {
+        sum.push_str(&format!(" + {}::get{}().a", via, x));
     }
     s.push_str(&format!("\nfn main() {{ string_println(int32_to_string({})) }}\n", sum));
     s
@@ -185,15 +201,32 @@ struct World<'a> {
     kind: &'a str,
     root: std::path::PathBuf,
     out: std::path::PathBuf,
+    /// Main uses a struct of a package it does not import, through a package it imports
+    indirect: bool,
 }
 
 impl<'a> World<'a> {
+    /// (package imported by Main, package imported by that one and not by Main)
+    fn indirect_uses(&self) -> Vec<(String, String)> {
+        let mut v = Vec::new();
+        if self.indirect {
+            let main_deps = &self.g[0].1;
+            for d in main_deps {
+                for x in &self.g[self.idx(d)].1 {
+                    if !main_deps.contains(x) {
+                        v.push((d.to_string(), x.to_string()));
+                    }
+                }
+            }
+        }
+        v
+    }
     fn restore(&self, st: &St) {
         let _ = std::fs::remove_dir_all(&self.root);
         let _ = std::fs::remove_dir_all(&self.out);
         std::fs::create_dir_all(&self.out).unwrap();
         for (i, (p, deps)) in self.g.iter().enumerate() {
-            let (path, src) = if *p == "Main" { (self.root.join("main.gom"), main_source(deps)) } else { (self.root.join(p).join("lib.gom"), lib_source(p, deps, st.variants[i], self.kind)) };
+            let (path, src) = if *p == "Main" { (self.root.join("main.gom"), main_source(deps, &self.indirect_uses())) } else { (self.root.join(p).join("lib.gom"), lib_source(p, deps, st.variants[i], self.kind, self.indirect)) };
             std::fs::create_dir_all(path.parent().unwrap()).unwrap();
             std::fs::write(path, src).unwrap();
             if let Some(s) = &st.arts[i].iface {
@@ -223,7 +256,7 @@ impl<'a> World<'a> {
             v
         }
         let (_, deps) = &self.g[0];
-        let mut sum = 0;
+        let mut sum = 7 * self.indirect_uses().len() as i64;
         for d in deps {
             sum += f(self, st, self.idx(d));
         }
@@ -247,7 +280,7 @@ impl Family for Staleness {
         900
     }
     fn rule(&self) -> &'static str {
-        "graphs {chain Main->A->B, diamond Main->{A,B}->C, fan Main->{A,B}, triangle Main->{A,B} with B->A, and with A->B} x 17 kinds of interface-changing edit (fn added/removed/signature changed, struct field added/retyped, enum variant added/payload changed, trait method added, impl added/removed, type renamed, generic parameter added, trait bound of a generic function added/removed/changed, bound of a method changed in the first / second of two inherent impls for two instances of one generic struct that give the method one name); each library has source variants {v0, body-only edit, interface-changing edit}; actions = edit(pkg,variant), check(pkg), build(pkg), tamper(pkg) (overwrite the dependency hashes at the top of a stale .core file with the current ones, as a user pasting the hash from the link error would), link; breadth-first search over all histories to depth 5 (quick) / 7 (thorough) with states deduplicated by (source variants, artifact file contents, the model's versions); every transition runs the real functions on real files. Reference model: symbolic interface versions (pkg, interface variant, versions of deps at build time). Oracle in every state: the dependency hashes a built/checked package records are those of the interface files it was built against; build/check succeed iff the model says the dependencies' interfaces exist; link succeeds iff every core exists and every recorded dependency version equals the version embedded in that dependency's core; a successful link prints the value denoted by the sources that were built; body-only edits leave the interface bytes unchanged and interface edits change the hash. non-trivial = states in which some package is stale; distinct = distinct states"
+        "graphs {chain Main->A->B, diamond Main->{A,B}->C, fan Main->{A,B}, triangle Main->{A,B} with B->A, and with A->B} x 18 kinds of interface-changing edit (fn added/removed/signature changed, struct field added after / before the others / retyped, enum variant added/payload changed, trait method added, impl added/removed, type renamed, generic parameter added, trait bound of a generic function added/removed/changed, bound of a method changed in the first / second of two inherent impls for two instances of one generic struct that give the method one name); each library has source variants {v0, body-only edit, interface-changing edit}; actions = edit(pkg,variant), check(pkg), build(pkg), tamper(pkg) (overwrite the dependency hashes at the top of a stale .core file with the current ones, as a user pasting the hash from the link error would), link; breadth-first search over all histories to depth 5 (quick) / 7 (thorough) with states deduplicated by (source variants, artifact file contents, the model's versions); every transition runs the real functions on real files. Reference model: symbolic interface versions (pkg, interface variant, versions of deps at build time). Oracle in every state: the dependency hashes a built/checked package records are those of the interface files it was built against; build/check succeed iff the model says the dependencies' interfaces exist; link succeeds iff every core exists and every recorded dependency version equals the version embedded in that dependency's core; a successful link prints the value denoted by the sources that were built; body-only edits leave the interface bytes unchanged and interface edits change the hash; chain and diamond x 4 kinds also with a Main that reads a field of a struct of a package it does not import, handed on by one it imports (refused by the type checker today; whenever it is built, the interface file of the indirect package is a version Main was built against and must be the linked one). non-trivial = states in which some package is stale; distinct = distinct states"
     }
     fn cases(&self, tier: Tier) -> Box<dyn Iterator<Item = Value> + '_> {
         let mut v = Vec::new();
@@ -257,6 +290,13 @@ impl Family for Staleness {
                     continue;
                 }
                 v.push(json!({"kind": "history", "graph": g, "edit": k}));
+            }
+        }
+        // Main reads a field of a struct of a package it does not import (handed on by one it imports): refused
+        // today; if it is ever built, the interface it was read from is one Main was built against
+        for g in ["chain", "diamond"] {
+            for k in ["struct-field-added", "struct-field-added-before", "struct-field-retyped", "fn-added"] {
+                v.push(json!({"kind": "history", "graph": g, "edit": k, "indirect": true}));
             }
         }
         for g in ["chain"] {
@@ -272,10 +312,11 @@ impl Family for Staleness {
         let mut rep = Report::default();
         let gname = case["graph"].as_str().unwrap();
         let kind = case["edit"].as_str().unwrap();
-        let w = World { g: graph(gname), kind, root: ctx.scratch.fresh_dir("stale-src"), out: ctx.scratch.fresh_dir("stale-out") };
+        let indirect = case["indirect"].as_bool().unwrap_or(false);
+        let w = World { g: graph(gname), kind, root: ctx.scratch.fresh_dir("stale-src"), out: ctx.scratch.fresh_dir("stale-out"), indirect };
         let n = w.g.len();
         let depth_max = if ctx.tier == Tier::Quick { 5 } else { 7 };
-        let site = format!("graph={};edit={}", gname, kind);
+        let site = format!("graph={};edit={}{}", gname, kind, if indirect { ";main-uses-an-indirect-struct" } else { "" });
         let init = St { variants: vec![0; n], arts: vec![Art { iface: None, core: None, m_iface: None, m_core: None, tampered: false }; n] };
         let mut seen: HashSet<String> = HashSet::new();
         seen.insert(key(&init));
@@ -297,7 +338,11 @@ impl Family for Staleness {
                         st.arts[i].m_iface = Some(self_ver.clone());
                         st.arts[i].m_core = Some((self_ver, dep_vers, 0));
                     }
-                    _ => ok = false,
+                    _ => {
+                        if !(indirect && i == 0) {
+                            ok = false
+                        }
+                    }
                 }
             }
             if ok && seen.insert(key(&st)) {
@@ -361,6 +406,14 @@ impl Family for Staleness {
                         let pkg = w.pkg(*i);
                         let deps_ok = w.g[*i].1.iter().all(|d| st.arts[w.idx(d)].m_iface.is_some());
                         let dep_vers: Vec<(String, String)> = w.g[*i].1.iter().map(|d| (d.to_string(), st.arts[w.idx(d)].m_iface.clone().unwrap_or_default())).collect();
+                        // a Main that reads a struct of a package it does not import can only have been built by
+                        // reading that package's interface file: it is then a version Main was built against
+                        let mut dep_vers = dep_vers;
+                        if *i == 0 {
+                            for (_, x) in w.indirect_uses() {
+                                dep_vers.push((x.clone(), st.arts[w.idx(&x)].m_iface.clone().unwrap_or_else(|| "<absent>".into())));
+                            }
+                        }
                         let iface_variant = if st.variants[*i] == 2 { 1 } else { 0 };
                         let self_ver = format!("{}#{}[{}]", pkg.name, iface_variant, dep_vers.iter().map(|(_, v)| v.clone()).collect::<Vec<_>>().join(","));
                         if is_build {
@@ -369,6 +422,9 @@ impl Family for Staleness {
                                 Ok(Ok(unit)) => {
                                     if !deps_ok {
                                         push(&mut rep, "build.succeeded-without-dependency-interface", format!("after {:?}", h2), &h2);
+                                    }
+                                    if indirect && *i == 0 {
+                                        rep.tag("main-using-an-indirect-struct:built");
                                     }
                                     let ij = serde_json::to_string_pretty(&unit.interface).unwrap();
                                     let cj = serde_json::to_string_pretty(&unit).unwrap();
@@ -391,7 +447,10 @@ impl Family for Staleness {
                                     next.arts[*i].m_core = Some((self_ver, dep_vers, st.variants[*i]));
                                 }
                                 Ok(Err(e)) => {
-                                    if deps_ok {
+                                    if indirect && *i == 0 && describe_err(&e).0 == "typer" {
+                                        // naming the fields of a struct of a package that is not imported may be refused
+                                        rep.tag("main-using-an-indirect-struct:rejected");
+                                    } else if deps_ok {
                                         push(&mut rep, "build.failed-although-dependencies-present", format!("{:?} after {:?}", describe_err(&e), h2), &h2);
                                     }
                                 }
@@ -650,7 +709,7 @@ fn corruption(case: &Value, ctx: &mut Ctx) -> Report {
     let mut rep = Report::default();
     let gname = case["graph"].as_str().unwrap();
     let target = case["target"].as_str().unwrap();
-    let w = World { g: graph(gname), kind: "fn-added", root: ctx.scratch.fresh_dir("corr-src"), out: ctx.scratch.fresh_dir("corr-out") };
+    let w = World { g: graph(gname), kind: "fn-added", root: ctx.scratch.fresh_dir("corr-src"), out: ctx.scratch.fresh_dir("corr-out"), indirect: false };
     let n = w.g.len();
     let st = St { variants: vec![0; n], arts: vec![Art { iface: None, core: None, m_iface: None, m_core: None, tampered: false }; n] };
     w.restore(&st);
